@@ -45,6 +45,8 @@
 (* used to show that the invariants are not vacuous:                        *)
 (*   "direct_write"     write_safe opens the final name instead of a temp   *)
 (*   "no_unlink_extra"  _synchronize does not remove extra entries          *)
+(*   "stop_at_vanished" _synchronize leaves the loop over the missing entries *)
+(*                      at the first one whose placement node is gone        *)
 (*   "first_sync_unchecked"  run() marks the placement ready before the     *)
 (*                      watch is registered: first sync has ce = FALSE      *)
 EXTENDS Naturals, Integers, Sequences, FiniteSets, TLC
@@ -95,7 +97,7 @@ Ag0 == [pc |-> "down", first |-> TRUE, expected |-> {}, ce |-> FALSE,
         extra |-> {}, missing |-> {}, existing |-> {},
         cur |-> "", chk |-> FALSE, pd |-> EmptyFn, md |-> EmptyFn, tmp |-> "",
         written |-> {}, disturbed |-> FALSE, err |-> FALSE, nw |-> 0, tmps0 |-> {},
-        start |-> FALSE, stale0 |-> {}]
+        start |-> FALSE, stale0 |-> {}, touched |-> {}]
 
 (* readiness side of EventMgr.run() (extension beyond C12, see the section   *)
 (* "readiness" below): the live main loop and its two Event flags            *)
@@ -134,27 +136,32 @@ EnvNote(s) ==
             !.ag.disturbed = IF InSync(s) THEN TRUE ELSE @,
             !.ag.pc = IF @ = "synced" THEN "idle" ELSE @]
 
+(* instances whose ZooKeeper nodes changed while the current sync was running *)
+Touch(s, a) == IF InSync(s) THEN s.ag.touched \cup {a} ELSE s.ag.touched
+
 (* a change of the children reaches a live ChildrenWatch *)
 Kick(s) == IF s.rd.live /\ s.rd.watch THEN "children" ELSE s.rd.cb
 
 PlaceEn(s, a, p, new) == a \notin DOMAIN s.zk.pl /\ s.zk.plnode
 PlaceDo(s, a, p, new) ==
-  [EnvNote(s) EXCEPT !.zk.pl = Put(@, a, [data |-> PDRec(p), new |-> new]), !.rd.cb = Kick(s)]
+  [EnvNote(s) EXCEPT !.zk.pl = Put(@, a, [data |-> PDRec(p), new |-> new]), !.rd.cb = Kick(s),
+                     !.ag.touched = Touch(s, a)]
 
 UnplaceEn(s, a) == a \in DOMAIN s.zk.pl
-UnplaceDo(s, a) == [EnvNote(s) EXCEPT !.zk.pl = Drop(@, a), !.rd.cb = Kick(s)]
+UnplaceDo(s, a) == [EnvNote(s) EXCEPT !.zk.pl = Drop(@, a), !.rd.cb = Kick(s),
+                                      !.ag.touched = Touch(s, a)]
 
 (* zkutils.put on an existing node: payload changes, ctime does not *)
 (* (a put of identical data is possible; the exhaustive runs skip it, see    *)
 (* the Next-level wrappers SetPD / SetMan)                                  *)
 SetPDEn(s, a, p) == a \in DOMAIN s.zk.pl
-SetPDDo(s, a, p) == [EnvNote(s) EXCEPT !.zk.pl[a].data = PDRec(p)]
+SetPDDo(s, a, p) == [EnvNote(s) EXCEPT !.zk.pl[a].data = PDRec(p), !.ag.touched = Touch(s, a)]
 
 SetManEn(s, a, v) == TRUE
-SetManDo(s, a, v) == [EnvNote(s) EXCEPT !.zk.man = Put(@, a, ManRec(a, v))]
+SetManDo(s, a, v) == [EnvNote(s) EXCEPT !.zk.man = Put(@, a, ManRec(a, v)), !.ag.touched = Touch(s, a)]
 
 DelManEn(s, a) == a \in DOMAIN s.zk.man
-DelManDo(s, a) == [EnvNote(s) EXCEPT !.zk.man = Drop(@, a)]
+DelManDo(s, a) == [EnvNote(s) EXCEPT !.zk.man = Drop(@, a), !.ag.touched = Touch(s, a)]
 
 -----------------------------------------------------------------------------
 (* prior life of the cache directory (before the process under test starts) *)
@@ -217,7 +224,9 @@ ReadPlacementDo(s, a) ==
   LET chk == a \notin s.ag.missing
       s1 == [s EXCEPT !.ag.missing = @ \ {a}, !.ag.existing = @ \ {a}]
   IN IF a \notin DOMAIN s.zk.pl
-     THEN s1                                            \* NoNodeError: return
+     THEN IF "stop_at_vanished" \in Defects /\ ~chk
+          THEN [s1 EXCEPT !.ag.missing = {}]            \* (defect) `break` out of the loop
+          ELSE s1                                       \* NoNodeError: return
      ELSE IF chk /\ a \in DOMAIN s.dir /\ ~s.zk.pl[a].new
      THEN s1                                            \* "is up to date": return
      ELSE [s1 EXCEPT !.ag.pc = "rdM", !.ag.cur = a, !.ag.chk = chk,
@@ -638,7 +647,10 @@ Synced == st.ag.pc = "synced"
 Undisturbed == ~st.ag.disturbed
 InvAtomic == AtomicState(st.dir)
 InvNoExtra == Synced => NoExtra(st.dir, st.ag.expected)
-InvPresent == (Synced /\ Undisturbed) => Present(st.dir, st.zk, st.ag.expected)
+(* ... for every listed instance whose own nodes did not change during the  *)
+(* sync (with a change of a's nodes "exists" has no single meaning for a;    *)
+(* the OTHER instances are owed their file whatever happened to a)           *)
+InvPresent == Synced => Present(st.dir, st.zk, st.ag.expected \ st.ag.touched)
 InvContent == (Synced /\ Undisturbed) => Content(st.dir, st.zk, st.ag.written)
 InvRefresh == (Synced /\ Undisturbed /\ st.ag.start) => Refresh(st.dir, st.zk, st.ag.stale0)
 (* not part of C12, kept as a sanity check of the `finally: rm_safe`: a     *)
